@@ -192,8 +192,8 @@ func init() {
 		s := schedC03(c)
 		o := prog.DefaultOpts()
 		o.Wide = c.pick(40, 300)
-		g := genPart(c, "C03", c.pick(40, 400), c.pick(40, 400), o, 1, "ok,fault,wide", c.pick(5, 12), false,
-			"at least two user functions were in flight at once (exact in-flight counter in the stubs vs. the limit the directive was given, or max(GOMAXPROCS,4)); 'wide' programs: a Parallel or Flow of 6..25 independent functions, mostly without cff.Concurrency, every function held until as many are in flight as the limit allows plus 3 ms")
+		g := genPart(c, "C03", c.pick(40, 400), c.pick(40, 400), o, 1, "ok,fault,wide,widegx,goexit", c.pick(5, 12), false,
+			"at least two user functions were in flight at once (exact in-flight counter in the stubs vs. the limit the directive was given, or max(GOMAXPROCS,4)); 'wide' programs: a Parallel or Flow of 6..25 independent functions, mostly without cff.Concurrency, every function held until as many are in flight as the limit allows plus 3 ms; 'widegx': the same after a third of the functions killed their goroutine with runtime.Goexit")
 		both(c, s, g)
 	}
 	checks["C04"] = func(c *ctx) {
@@ -208,14 +208,14 @@ func init() {
 		s := schedC05(c)
 		o := prog.DefaultOpts()
 		o.PredPct, o.FallbackPct = 30, 30
-		g := genPart(c, "C05", c.pick(40, 500), c.pick(40, 500), o, 1, "ok,pred,fault,panic,cancel", c.pick(3, 8), false,
+		g := genPart(c, "C05", c.pick(40, 500), c.pick(40, 500), o, 1, "ok,pred,fault,panic,cancel,goexit", c.pick(3, 8), false,
 			"at least one user function was called (every execution must return; stuck-state detector as in Engine S)")
 		both(c, s, g)
 	}
 	checks["C06"] = func(c *ctx) {
 		s := schedC06(c)
 		o := prog.DefaultOpts()
-		g := genPart(c, "C06", c.pick(40, 500), c.pick(40, 500), o, 1, "ok,fault,panic,cancel,conc", c.pick(3, 8), false,
+		g := genPart(c, "C06", c.pick(40, 500), c.pick(40, 500), o, 1, "ok,fault,panic,cancel,conc,goexit", c.pick(3, 8), false,
 			"at least one user function was called; after every execution the process must return to its goroutine baseline")
 		both(c, s, g)
 	}
